@@ -108,6 +108,8 @@ def cases(tier, seed):
         out.append(dict(id='real-%d' % rep, kind='real', seed=seed * 457 + rep, count=6))
     for rep in range(12 if thorough else 2):
         out.append(dict(id='many-%d' % rep, kind='many', seed=seed * 523 + rep, count=2))
+    for rep in range(30 if thorough else 6):
+        out.append(dict(id='refrag-%d' % rep, kind='refrag', seed=seed * 541 + rep, count=10))
     return out
 
 
@@ -246,6 +248,31 @@ def run_case(case):
                     seq.insert(pos, dup)
                     obs['duplicates_injected'] += 1
                     play(seq, originals, 'dup')
+    elif kind == 'refrag':
+        # the same bundle arrives as two DIFFERENT complete fragmentations (fragmented twice on different paths), one whole set
+        # after the other or interleaved, optionally with another bundle in between: still exactly one delivery
+        for _ in range(case['count']):
+            keys = _bundle_set(rng, 2)
+            total = rng.choice([40, 64, 300])
+            payload = pattern(rng.randrange(100), total)
+            exts = [dict(blk) for blk in rng.sample(EXTS, rng.randint(0, len(EXTS)))]
+            originals = {keys[0]: (total, payload, exts)}
+            sets = []
+            for _cut in range(2):
+                nfrag = rng.choice([2, 3, 4])
+                cuts = sorted(set(rng.sample(range(1, total), nfrag - 1)))
+                bounds = [0] + cuts + [total]
+                one = [(keys[0], lo, hi, make_fragment(keys[0], total, lo, hi, payload, exts)) for lo, hi in zip(bounds[:-1], bounds[1:])]
+                rng.shuffle(one)
+                sets.append(one)
+            if set((a[1], a[2]) for a in sets[0]) & set((a[1], a[2]) for a in sets[1]):
+                continue
+            mode = rng.choice(['sequential', 'sequential', 'interleaved'])
+            arrivals = sets[0] + sets[1]
+            if mode == 'interleaved':
+                rng.shuffle(arrivals)
+            obs['refragmented_histories'] = obs.get('refragmented_histories', 0) + 1
+            play(arrivals, originals, 'refragmented-' + mode)
     elif kind == 'rand':
         for _ in range(case['count']):
             keys = _bundle_set(rng, 1)
